@@ -1,8 +1,8 @@
 /-
   C17 — property theorems (model: `Model/C17.lean`, helpers: `Lemmas/C17.lean`).
 
-  `step true`  = the code with the repairs `fixes/C17-streak-ge-max-error.diff` and
-                 `fixes/C17-execute-once.diff` applied (the main model);
+  `step true`  = the code with the repairs `fixes/C17-streak.diff` and
+                 `fixes/C17-sent-once.diff` applied (the main model);
   `step false` = the code as it stood on the pinned tree.
 
   Every positive theorem is for ALL histories (lists of operations with arbitrary server answers) or,
